@@ -20,7 +20,8 @@ FLOORS = ["acq.new", "acq.expired.self", "acq.expired.other", "acq.held.self.fwd
           "pro.empty", "rel.holder", "rel.nonholder", "rel.missing", "isacq.true", "isacq.false.expired",
           "isacq.false.other", "isacq.false.missing",
           "acq.delta=-1", "acq.delta=0", "acq.delta=1", "pro.delta=-1", "pro.delta=0", "pro.delta=1",
-          "isacq.delta=-1", "isacq.delta=0", "isacq.delta=1", "U=0"]
+          "isacq.delta=-1", "isacq.delta=0", "isacq.delta=1", "U=0", "rebuild.lock-held", "rebuild.empty",
+          "rebuild.other-unlock-time"]
 
 
 # ---------------------------------------------------------------------------------------------------
@@ -41,6 +42,13 @@ def systematic():
         for (l, c) in ((1, 1), (1, 2), (2, 1)):
             cases.append({"U": U, "ops": [("acq", 1, 1, t0), ("rel", l, c), ("isacq", 1, 1, t0), ("acq", 1, 2, t0)]})
         cases.append({"U": U, "ops": [("pro", 1, 5), ("rel", 1, 1), ("isacq", 1, 1, 0)]})
+        # snapshot: the rebuilt replica (created with another autoUnlockTime, holding something stale) must
+        # behave like the original at the expiry boundaries
+        for u in (U, U + 3, 0):
+            for t in (t0 + U - 1, t0 + U, t0 + U + 1):
+                cases.append({"U": U, "ops": [("acq", 1, 1, t0), ("rebuild", u), ("isacq", 1, 1, max(0, t)), ("acq", 1, 2, max(0, t)),
+                                              ("pro", 2, t0 + U + 1), ("rebuild", u)]})
+        cases.append({"U": U, "ops": [("rebuild", U + 1), ("acq", 1, 1, t0), ("acq", 1, 2, t0 + U + 1)]})
     return cases
 
 
@@ -62,6 +70,8 @@ def random_case(rng):
         elif q < 0.55 and known:
             t = max(0, rng.choice(list(known.values())) + U + rng.choice((-1, 0, 1)))
         l, c = rng.randrange(1, nl + 1), rng.randrange(1, nc + 1)
+        if rng.random() < 0.06:
+            ops.append(("rebuild", rng.choice((U, U + 1, 0, 7))))
         if r < 0.4:
             ops.append(("acq", l, c, t))
             known[l] = t
@@ -95,6 +105,12 @@ def run_real(bat, case, cov=None):
         if cov is not None:
             classify(cov, U, pre, op)
         try:
+            if op[0] == "rebuild":
+                new = lc.fresh_impl(bat, op[1])
+                new._deserialize(lc.snapshot_of(impl))
+                impl = new
+                out.append("%s %s" % (lc.unlock_time_of(impl), lc.table_str(lc.table_of(impl))))
+                continue
             if op[0] == "isacq":
                 r = impl.isAcquired(lc.lock_name(op[1]), lc.client_name(op[2]), op[3])
                 out.append("1" if r is True else "0" if r is False else "?%r" % (r,))
@@ -160,6 +176,10 @@ def classify(cov, U, pre, op):
                 hit("pro.refresh.fwd" if t >= t0 else "pro.refresh.back")
             else:
                 hit("pro.keep.other")
+    elif k == "rebuild":
+        hit("rebuild.lock-held" if pre else "rebuild.empty")
+        if op[1] != U:
+            hit("rebuild.other-unlock-time")
     elif k == "rel":
         _, l, c = op
         hit("rel.missing" if l not in pre else "rel.holder" if pre[l][0] == c else "rel.nonholder")
@@ -271,10 +291,18 @@ def property_checks(bat, rng, n):
             c, l = rng.randrange(1, 4), rng.randrange(1, 3)
             q = rng.random()
             cmd = ("acq", l, c, t) if q < 0.5 else ("pro", c, t) if q < 0.9 else ("rel", l, c)
+            if rng.random() < 0.15:
+                cmds.append(("rebuild", rng.choice((U, U + 2, 0))))
+                kv = keep.rebuild(bat, cmds[-1][1])
+                if kv is not None:
+                    kv["what"] = "log %s (U=%d): %s" % ([x if x[0] == "rebuild" else lc.cmd_str(x) for x in cmds], U, kv["what"])
+                    kv["replay"] = {"kind": "prop-keep", "U": U, "cmds": [list(x) for x in cmds]}
+                    viols.append(kv)
+                    break
             cmds.append(cmd)
             _, kv, _ = keep.apply(cmd)
             if kv is not None:
-                kv["what"] = "log %s (U=%d): %s" % ([lc.cmd_str(x) for x in cmds], U, kv["what"])
+                kv["what"] = "log %s (U=%d): %s" % ([x if x[0] == "rebuild" else lc.cmd_str(x) for x in cmds], U, kv["what"])
                 kv["replay"] = {"kind": "prop-keep", "U": U, "cmds": [list(x) for x in cmds]}
                 viols.append(kv)
                 break
@@ -347,7 +375,7 @@ def replay(ctx, violation):
     if rp.get("kind") == "prop-keep":
         keep = lc.KeepMonitor(bat, rp["U"])
         for cmd in rp["cmds"]:
-            _, kv, _ = keep.apply(tuple(cmd))
+            kv = keep.rebuild(bat, cmd[1]) if cmd[0] == "rebuild" else keep.apply(tuple(cmd))[1]
             if kv is not None:
                 return {"violated": kv["signature"] == violation.get("signature"), "what": kv["what"],
                         "table": lc.table_of(keep.impl)}
